@@ -23,10 +23,11 @@ type ModSet struct {
 	points map[string][]string // map -> refs whose entry alone may change
 	psort  map[string]*Sort
 	cellPts map[string][]int   // map -> cells holding the only object written (loop scans)
+	freshHeap map[string]*Sort // maps written only on objects allocated inside the scanned region
 }
 
 func NewModSet() *ModSet {
-	return &ModSet{heap: map[string]*Sort{}, cells: map[int]bool{}, points: map[string][]string{}, psort: map[string]*Sort{}, cellPts: map[string][]int{}}
+	return &ModSet{heap: map[string]*Sort{}, cells: map[int]bool{}, points: map[string][]string{}, psort: map[string]*Sort{}, cellPts: map[string][]int{}, freshHeap: map[string]*Sort{}}
 }
 
 // addPoint: only the entry of ref in the named maps may change.
@@ -101,6 +102,21 @@ func (x *Exec) storeMods(fr *Frame, addr ssa.Value, ms *ModSet) {
 		pt := a.X.Type().Underlying().(*types.Pointer).Elem()
 		su := pt.Underlying().(*types.Struct)
 		ft := su.Field(a.Field).Type()
+		if al, ok := a.X.(*ssa.Alloc); ok && !isStructT(ft) && !isArrayT(ft) {
+			bound := false
+			if fr != nil {
+				_, bound = fr.addrs[al]
+			}
+			if !bound {
+				// the object is allocated inside the scanned region: objects that existed before keep this field
+				tmp := NewModSet()
+				x.addTypeStoreMods(tmp, AKField, pt, a.Field, ft)
+				for n, s := range tmp.heap {
+					ms.freshHeap[n] = s
+				}
+				return
+			}
+		}
 		if c, ok := x.loadedCell(fr, a.X); ok && !isStructT(ft) && !isArrayT(ft) {
 			tmp := NewModSet()
 			x.addTypeStoreMods(tmp, AKField, pt, a.Field, ft)
@@ -347,6 +363,49 @@ func (x *Exec) callMods(fr *Frame, c *ssa.CallCommon, ms *ModSet, depth int) {
 	x.unknownCallMods(c, ms)
 }
 
+// unknownCallModsAt: like unknownCallMods, but with the argument values at hand only the
+// objects the pointers actually denote are havocked (point updates), not whole maps.
+func (x *Exec) unknownCallModsAt(c *ssa.CallCommon, ms *ModSet, args []Val) {
+	vals := x.callArgValues(c)
+	for i, a := range vals {
+		for {
+			if mi, ok := a.(*ssa.MakeInterface); ok {
+				a = mi.X
+				continue
+			}
+			if ci, ok := a.(*ssa.ChangeInterface); ok {
+				a = ci.X
+				continue
+			}
+			break
+		}
+		if _, isIface := a.Type().Underlying().(*types.Interface); isIface {
+			x.assume1("objects behind interface-typed arguments of un-contracted calls are assumed unchanged by the call")
+		}
+		tmp := NewModSet()
+		var ref string
+		switch t := a.Type().Underlying().(type) {
+		case *types.Slice:
+			x.addTypeStoreMods(tmp, AKElem, nil, 0, t.Elem())
+			if a == vals[i] && i < len(args) && len(args[i].L) == 4 {
+				ref = args[i].L[0]
+			}
+		case *types.Pointer:
+			x.addTypeStoreMods(tmp, AKPtr, nil, 0, t.Elem())
+			if a == vals[i] && i < len(args) && len(args[i].L) == 1 {
+				ref = args[i].L[0]
+			}
+		}
+		if ref != "" {
+			ms.addPoint(tmp, ref)
+		} else {
+			for n, s := range tmp.heap {
+				ms.heap[n] = s
+			}
+		}
+	}
+}
+
 func (x *Exec) unknownCallMods(c *ssa.CallCommon, ms *ModSet) {
 	for _, a := range x.callArgValues(c) {
 		// an interface built here from a pointer: the callee can write through it
@@ -417,6 +476,7 @@ func (x *Exec) havocArr(st *State, n string, s *Sort, prefix string) {
 	old := x.heapGet(st, n, s)
 	nv := x.vc.Declare(n+"@"+prefix, s)
 	st.heap[n] = nv
+	x.pendingAlloc = append(x.pendingAlloc, [2]string{nv, n})
 	if x.rootSpec != nil && !x.rootSpec.Implicit && x.immutableArr(n) && s.K == SArr && s.Key.K == SRef {
 		x.birth()
 		q := fmt.Sprintf("q!r!%d", x.nextID())
@@ -452,6 +512,25 @@ func (x *Exec) havoc(fr *Frame, st *State, ms *ModSet, prefix string) {
 	for _, n := range sortedKeys(ms.heap) {
 		s := ms.heap[n]
 		x.havocArr(st, n, s, prefix)
+	}
+	for _, n := range sortedKeys(ms.freshHeap) {
+		if _, whole := ms.heap[n]; whole || ms.all {
+			continue
+		}
+		if _, pt := ms.cellPts[n]; pt {
+			ms.heap[n] = ms.freshHeap[n]
+			x.havocArr(st, n, ms.freshHeap[n], prefix)
+			continue
+		}
+		s := ms.freshHeap[n]
+		x.heapVar(n, s)
+		old := x.heapGet(st, n, s)
+		nv := x.vc.Declare(n+"@"+prefix+".fr", s)
+		st.heap[n] = nv
+		x.pendingAlloc = append(x.pendingAlloc, [2]string{nv, n})
+		x.birth()
+		q := fmt.Sprintf("q!r!%d", x.nextID())
+		x.assumeIn(st, "(forall (("+q+" Int)) (! (=> (<= (birth "+q+") "+st.now+") (= (select "+nv+" "+q+") (select "+old+" "+q+"))) :pattern ((select "+nv+" "+q+"))))")
 	}
 	for _, n := range sortedKeys(ms.cellPts) {
 		cs := ms.cellPts[n]
@@ -489,6 +568,11 @@ func (x *Exec) havoc(fr *Frame, st *State, ms *ModSet, prefix string) {
 	nn := x.vc.Declare("now", sortInt)
 	x.assumeIn(st, "(>= "+nn+" "+st.now+")")
 	st.now = nn
+	// the havocked maps hold references to objects that exist at the new time
+	for _, pa := range x.pendingAlloc {
+		x.refsAllocatedAxiom(pa[0], x.heapSorts[pa[1]], nn)
+	}
+	x.pendingAlloc = nil
 }
 
 // ---------- callee resolution ----------
@@ -683,9 +767,15 @@ func (x *Exec) execCall(fr *Frame, st *State, instr ssa.Instruction, c *ssa.Call
 		return
 	}
 	callee, spec, key := x.resolveCallee(fr, c)
+	if callee == nil && spec == nil && !c.IsInvoke() && strings.HasPrefix(key, "func-value") {
+		x.atCallClauses(fr, st, "funcvalue")
+	}
 	// at-call clauses of the function under verification
 	if fr.root && fr.spec != nil {
 		for _, ac := range fr.spec.AtCalls {
+			if ac.Callee == "funcvalue" || ac.Callee == "close" || ac.Callee == "send" {
+				continue
+			}
 			if strings.HasSuffix(key, ac.Callee) || strings.HasSuffix(key, "."+ac.Callee) {
 				if ac.Assert != nil {
 					t, err := x.evalBool(fr, st, ac.Assert.E)
@@ -759,7 +849,7 @@ func (x *Exec) execCall(fr *Frame, st *State, instr ssa.Instruction, c *ssa.Call
 	}
 	// unknown call: arbitrary result, memory reachable from the arguments (depth 1) havocked
 	ms := NewModSet()
-	x.unknownCallMods(c, ms)
+	x.unknownCallModsAt(c, ms, args)
 	for i, ad := range argAddrs {
 		if ad != nil && ad.K == AKCell {
 			ms.cells[ad.Cell] = true
@@ -1337,7 +1427,35 @@ func (x *Exec) applyEventSpec(fr *Frame, st *State, sp *FuncSpec, names map[stri
 	}
 }
 
+// atCallClauses: at-call clauses for events that are not ordinary calls (close, send, call of a func value).
+func (x *Exec) atCallClauses(fr *Frame, st *State, what string) {
+	if !fr.root || fr.spec == nil {
+		return
+	}
+	for _, ac := range fr.spec.AtCalls {
+		if ac.Callee != what {
+			continue
+		}
+		if ac.Assert != nil {
+			t, err := x.evalBool(fr, st, ac.Assert.E)
+			if err != nil {
+				x.bindingFailure(fmt.Sprintf("at call %s: %v", what, err))
+			} else {
+				x.obligeIn(st, "at-call "+what, ac.Assert.Name(), t, "")
+			}
+		}
+		if ac.Assume != nil {
+			if t, err := x.evalBool(fr, st, ac.Assume.E); err == nil {
+				x.assumeIn(st, t)
+				x.assume1("assumed at " + what + " in " + shortFn(fr.fn) + ": " + ac.Assume.Src)
+			}
+		}
+	}
+}
+
 func (x *Exec) execSend(fr *Frame, st *State, i *ssa.Send) {
+	x.curPos = i.Pos()
+	x.atCallClauses(fr, st, "send")
 	ch := x.val(fr, i.Chan)
 	v := x.val(fr, i.X)
 	names := map[string]Val{"ch": ch}
@@ -1348,6 +1466,8 @@ func (x *Exec) execSend(fr *Frame, st *State, i *ssa.Send) {
 }
 
 func (x *Exec) execClose(fr *Frame, st *State, instr ssa.Instruction, c *ssa.CallCommon) {
+	x.curPos = instr.Pos()
+	x.atCallClauses(fr, st, "close")
 	ch := x.val(fr, c.Args[0])
 	x.applyEventSpec(fr, st, x.chanSpec("close"), map[string]Val{"ch": ch}, x.srcText(instr))
 }
@@ -1362,7 +1482,11 @@ func (x *Exec) execRecv(fr *Frame, st *State, i *ssa.UnOp) {
 	if len(v.L) > 0 {
 		names["v"] = v
 	}
-	x.applyEventSpec(fr, st, x.chanSpec("recv"), names, x.srcText(i))
+	sp := x.chanSpec("recv")
+	if t, ok := x.w.specs.Funcs["chan.recv."+typeKey(et)]; ok {
+		sp = t
+	}
+	x.applyEventSpec(fr, st, sp, names, x.srcText(i))
 	if i.CommaOk {
 		ok := x.vc.Declare("recvok", sortBool)
 		out := Val{GT: i.Type(), S: append(append([]*Sort{}, v.S...), sortBool), L: append(append([]string{}, v.L...), ok)}
